@@ -196,7 +196,15 @@ func (e *fnEnc) run() (err error) {
 			for _, be := range bes {
 				gs = append(gs, imp(be.cond, be.inv[i]))
 			}
-			e.obligationNoAssume("inv", fmt.Sprintf("loop %d:preserve:%s", li.ord, clauseLabel(cl, i)), tTrue, and(gs...), cl.Text, cl.Line)
+			o := e.obligationNoAssume("inv", fmt.Sprintf("loop %d:preserve:%s", li.ord, clauseLabel(cl, i)), tTrue, and(gs...), cl.Text, cl.Line)
+			if len(bes) > 8 {
+				// a loop with many back edges (one per `continue`): one query per back
+				// edge, same obligation (the cases cover every way to fail: a
+				// counter-model takes at least one back edge)
+				for _, be := range bes {
+					o.Cases = append(o.Cases, be.cond.S)
+				}
+			}
 		}
 		if _, all := e.assignsTargets(); !all && len(bes) > 0 {
 			var gs []Term
